@@ -4,6 +4,7 @@ import SakuraVerif.Driver.LenOps
 import SakuraVerif.Driver.MsgOps
 import SakuraVerif.Driver.SutOps
 import SakuraVerif.Driver.ExprOps
+import SakuraVerif.Driver.CoreOps
 open Sakura Sakura.Wire Sakura.Driver
 
 def handle (line : String) : String :=
@@ -25,6 +26,8 @@ def handle (line : String) : String :=
   | ["zen2han", c] => s!"ok out={Sakura.Sut.zen2han (parseNat c)}"
   | ["expr", tree] => "ok " ++ exprEval tree
   | "builtin" :: name :: args => "ok " ++ builtinEval name args
+  | ["coresem", prog] => "ok " ++ coreSem prog
+  | ["spec.c03", prog, bin] => "ok " ++ specC03 prog (unhex bin)
   | _ => "bad-op"
 
 partial def loop (h : IO.FS.Stream) (out : IO.FS.Stream) : IO Unit := do
